@@ -1217,6 +1217,9 @@ static Janet os_execute_impl(int32_t argc, Janet *argv, JanetExecuteMode mode) {
         if (pipe_in != JANET_HANDLE_NONE) close_handle(pipe_in);
         if (pipe_out != JANET_HANDLE_NONE) close_handle(pipe_out);
         if (pipe_err != JANET_HANDLE_NONE) close_handle(pipe_err);
+        if ((pipe_owner_flags & JANET_PROC_OWNS_STDIN) && new_in != JANET_HANDLE_NONE) close_handle(new_in);
+        if ((pipe_owner_flags & JANET_PROC_OWNS_STDOUT) && new_out != JANET_HANDLE_NONE) close_handle(new_out);
+        if ((pipe_owner_flags & JANET_PROC_OWNS_STDERR) && new_err != JANET_HANDLE_NONE) close_handle(new_err);
         janet_panic("failed to create pipes");
     }
 
@@ -1399,7 +1402,12 @@ static Janet os_execute_impl(int32_t argc, Janet *argv, JanetExecuteMode mode) {
     os_execute_cleanup(envp, child_argv);
     if (status) {
         /* correct for macos bug where errno is not set */
-        janet_panicf("%p: %s", argv[0], janet_strerror(errno ? errno : ENOENT));
+        int spawn_errno = errno ? errno : ENOENT;
+        /* Our ends of :pipe redirections are not owned by a stream yet, don't leak them. */
+        if (pipe_owner_flags & JANET_PROC_OWNS_STDIN) close(new_in);
+        if (pipe_owner_flags & JANET_PROC_OWNS_STDOUT) close(new_out);
+        if (pipe_owner_flags & JANET_PROC_OWNS_STDERR) close(new_err);
+        janet_panicf("%p: %s", argv[0], janet_strerror(spawn_errno));
     }
 
 #endif
